@@ -325,6 +325,12 @@ class Escape:
             elif isinstance(n, ast.Attribute) and isinstance(n.ctx, ast.Load):
                 out += self._property(fr, f, st, n)
                 out += self._optional_self(fr, f, st, n)
+            elif isinstance(n, ast.BinOp) and isinstance(n.op, ast.Pow):
+                # S5c: a negative float raised to a fractional power is a complex number; int() / comparisons / round()
+                # of it raise TypeError far from here, so the source is reported at the power
+                ex = self.repo.const(fr.mod, n.right)
+                if isinstance(ex, float) and not ex.is_integer() and not self._nonneg_at(f, n, n.left):
+                    add("TypeError", "fractional power of a value that is not provably non-negative (complex result)", None, n)
         if isinstance(st, ast.Assign) and len(st.targets) == 1 and isinstance(st.targets[0], (ast.Tuple, ast.List)):
             v = st.value
             if isinstance(v, ast.Call) and isinstance(v.func, ast.Attribute) and v.func.attr in ("split", "rsplit", "partition") and v.func.attr != "partition":
@@ -343,6 +349,27 @@ class Escape:
             for v in vals:
                 if isinstance(v, ast.AST):
                     yield from walk_no_nested(v)
+
+    def _nonneg_at(self, f: Fn, at, e) -> bool:
+        if isinstance(e, ast.Constant) and isinstance(e.value, (int, float)):
+            return e.value >= 0
+        if isinstance(e, ast.Call) and call_name(e) in ("abs", "len", "float") and e.args:
+            return call_name(e) != "float" or self._nonneg_at(f, at, e.args[0])
+        if isinstance(e, ast.Call) and call_name(e) == "max" and any(self._nonneg_at(f, at, a) for a in e.args):
+            return True
+        atoms = f.guard_atoms(at)
+        t = norm(e)
+        from .q import natom
+
+        if natom(f"{t} < 0", False) in atoms or natom(f"{t} >= 0") in atoms or natom(f"{t} > 0") in atoms:
+            return True
+        if isinstance(e, ast.UnaryOp) and isinstance(e.op, ast.USub):
+            u = norm(e.operand)
+            if natom(f"{u} < 0") in atoms or natom(f"{u} <= 0") in atoms or natom(f"{u} >= 0", False) in atoms:
+                return True
+        if isinstance(e, ast.BinOp) and isinstance(e.op, (ast.Mult, ast.Div, ast.Add)):
+            return self._nonneg_at(f, at, e.left) and self._nonneg_at(f, at, e.right)
+        return False
 
     def _is_class(self, fr, name_node) -> bool:
         t = self.repo.resolve_name(fr.mod, name_node)
@@ -843,6 +870,9 @@ class Escape:
             if self._parsed_list(fr, f, base):
                 if not self._nonempty_guard(f, n, base) and not self._len_guard(f, n, base, idx.value):
                     add("IndexError", "constant index into a list whose length depends on the input", [[(base, True)]])
+            elif isinstance(n.ctx, ast.Load) and self._starts_empty(fr, base):
+                if not self._nonempty_guard(f, n, base) and not self._len_guard(f, n, base, idx.value):
+                    add("IndexError", "constant index into a list field that the constructor leaves empty", [[(base, True)]])
             out += self._optional_use(fr, f, st, base, "subscripted")
             return out
         # (b) dict subscripts on instance tables
@@ -900,6 +930,24 @@ class Escape:
             defs = f.local_defs(base.id)
             return len(defs) == 1 and f._simple_def(base.id) and self._parsed_list(fr, f, defs[0])
         return False
+
+    def _starts_empty(self, fr, base) -> bool:
+        """self.<field> whose only __init__ assignment is an empty list literal"""
+        if not (isinstance(base, ast.Attribute) and isinstance(base.value, ast.Name) and base.value.id == "self"):
+            return False
+        cls = getattr(fr.node, "_class", None)
+        if cls is None:
+            return False
+        init = next((m for m in cls.body if isinstance(m, ast.FunctionDef) and m.name == "__init__"), None)
+        if init is None:
+            return False
+        vals = []
+        for st in ast.walk(init):
+            if isinstance(st, (ast.Assign, ast.AnnAssign)) and st.value is not None:
+                for t in st.targets if isinstance(st, ast.Assign) else [st.target]:
+                    if isinstance(t, ast.Attribute) and isinstance(t.value, ast.Name) and t.value.id == "self" and t.attr == base.attr:
+                        vals.append(st.value)
+        return bool(vals) and all(isinstance(v, ast.List) and not v.elts for v in vals)
 
     def _is_message_class(self, cls: str) -> bool:
         if cls not in self.prog.classes:
